@@ -214,6 +214,9 @@ def run_sessions(plan, tr):
         # ---- round 2: partial signatures
         psigs = {}
         r_of = {}
+        lifted_wrong = False
+        if any(f["f"] == "r_xonly" for f in faults):
+            tr.fault("r_xonly")
         for p in parties:
             try:
                 pairs = [(S256Point.parse(p.view[s][0]), S256Point.parse(p.view[s][1])) for s in p.order]
@@ -239,6 +242,14 @@ def run_sessions(plan, tr):
             try:
                 sums = p.musig.nonce_sums(pairs)
                 r = p.musig.compute_r(sums, msg)
+                if any(f["f"] == "r_xonly" for f in faults):
+                    # the aggregate nonce reaches the co-signers as a 32-byte x-only value (another coordinator's wire format) and is
+                    # lifted back to a point: when the real R has odd y every co-signer signs for the wrong point
+                    r_real = r
+                    r = S256Point.parse_xonly(r.xonly())
+                    if r != r_real:
+                        lifted_wrong = True
+                        tr.probe("r_lifted_to_other_parity")
                 k = p.musig.compute_k(p.nonce_secrets, sums, msg)
                 s_i = p.musig.sign(p.priv, k, r, msg, merkle)
             except SimDeadlock:
@@ -296,7 +307,7 @@ def run_sessions(plan, tr):
             s_sum += int.from_bytes(b, "big")
             tr.ev("net", "psig", f"{who}>agg")
         A = parties[agg]
-        expect = consistent and exact and not aborted
+        expect = consistent and exact and not aborted and not lifted_wrong
         tr.probe("aggregations")
         tr.probe("expect_" + str(expect))
         try:
@@ -553,7 +564,7 @@ def execute(plan, prop, trace):
 # ------------------------------------------------------------------------------------------------
 
 LATER_FNS = ["musig_tree", "musig_tree", "multi_leaf_tree", "single_leaf", "musig_and_single_leaf_tree", "everything_tree"]
-SESSION_FAULTS = ["drop_psig", "dup_psig", "corrupt_psig", "stale_psig", "corrupt_nonce", "crash", "add_zero_psig"]
+SESSION_FAULTS = ["drop_psig", "dup_psig", "corrupt_psig", "stale_psig", "corrupt_nonce", "crash", "add_zero_psig", "r_xonly"]
 
 
 def generate(ch, tier, prop):
